@@ -27,6 +27,8 @@ def plan(tier, seed):
     n = 1500 if tier == "quick" else 15000
     for i in range(n):
         cases.append({"mode": ("simbatch", "simctl", "live", "simctl", "betdaq", "simbatch", "live")[i % 7], "seed": seed, "idx": i})
+    # directed case for the listed finding C02-reoffer-leaves-violation-msg (a live order offered again and refused by validate_order)
+    cases.insert(0, {"mode": "simctl", "seed": seed, "idx": 1, "directed_reoffer": True})
     return cases
 
 
@@ -140,6 +142,10 @@ def build_simctl(desc):
         if rng.random() < 0.1:
             x["force"] = True
         actions.append(x)
+    # the same order object offered again later (a retry / double submit), not forced: whatever refuses it changes nothing
+    for a in list(actions):
+        if a["op"] == "place" and rng.random() < 0.3:
+            actions.append(dict(a, at=min(13, a["at"] + rng.randint(0, 4)), reuse=True, force=False))
     actions.sort(key=lambda a: a["at"])
     which = rng.choice(("exposure", "trades", "txlimit", "custom", "none"))
     st = {"name": "S0", "actions": actions}
@@ -152,6 +158,10 @@ def build_simctl(desc):
         st["multi_order_trades"] = False
     elif which == "txlimit":
         client["transaction_limit"] = rng.choice((0, 3, 10))
+    if desc.get("directed_reoffer"):
+        a0 = {"m": mid, "at": 0, "op": "place", "ref": "d0", "sel": [801, 0], "side": "BACK", "price": 3.0, "size": 2.0, "persistence": "PERSIST"}
+        st = {"name": "S0", "actions": [a0, dict(a0, at=2, reuse=True, force=False)], "max_live_trade_count": 1, "multi_order_trades": False}
+        client, which = {}, "trades"
     case = {"seed": desc["seed"], "idx": desc["idx"], "markets": [{"id": mid, "text": mf.text()}], "clients": [client], "strategies": [st], "custom_control": which == "custom"}
     return case, {mid: G.read_lines(mf.lines)}
 
